@@ -279,6 +279,16 @@ pub fn big_alphabet() -> Vec<Snippet> {
         v.push(vec![inst(Inst::Jal(rd, "J".into())), label("J")]);
     }
     v.push(vec![inst(Inst::La(T2, "D".into()))]);
+    // the three-operand store: the temporary is set by `auipc` / `lui` alone and holds the upper
+    // part of the address (the low part goes into the store)
+    v.push(vec![
+        Stmt::Inst("sw t1, D, t2".into(), Inst::LaUpper(T2, "D".into(), 8)),
+        Stmt::Inst(String::new(), Inst::Store(SOp::Sw, T1, T2, 8)),
+    ]);
+    v.push(vec![
+        Stmt::Inst(format!("sw t1, {}, t2", DATA_BASE + 20), Inst::Lui(T2, (DATA_BASE >> 12) as i32)),
+        Stmt::Inst(String::new(), Inst::Store(SOp::Sw, T1, T2, 20)),
+    ]);
     v.push(vec![inst(Inst::Csr(CsrOp::Rw, T2, 64, T0))]);
     v.push(vec![inst(Inst::Csr(CsrOp::Rs, T2, 64, ZERO))]);
     v.push(vec![inst(Inst::CsrI(CsrOp::Rw, T2, 64, 5))]);
